@@ -78,7 +78,7 @@ type c16Ref struct {
 	dense   string
 }
 
-var c16Names = map[string]string{"math/rand/v2": "rand", "gopkg.in/yaml.v2": "yaml"}
+var c16Names = map[string]string{"math/rand/v2": "rand", "gopkg.in/yaml.v2": "yaml", "a/x/chi/v5": "chi"}
 
 func c16Imports(src []byte, shared *goast.DecoratorResolver, rr interface {
 	ResolvePackage(string) (string, error)
@@ -96,6 +96,9 @@ func c16Imports(src []byte, shared *goast.DecoratorResolver, rr interface {
 	dst.Inspect(df, func(n dst.Node) bool {
 		if id, ok := n.(*dst.Ident); ok && id.Name == "c16AddedRef" {
 			id.Name, id.Path = "Info", "x.com/app/log" // a package whose name clashes with an existing import
+		}
+		if id, ok := n.(*dst.Ident); ok && id.Name == "c16AddedChi" {
+			id.Name, id.Path = "NewRouter", "a/x/chi/v5" // same name as a/x/chi, of which it is a sub-path
 		}
 		return true
 	})
@@ -164,7 +167,10 @@ func runC16(c *fw.Ctx) {
 	// multi-line raw strings and block comments (their line offsets are recorded relative to the
 	// file the restorer registers)
 	raw := "package p\n\nimport \"fmt\"\n\n/*\nblock\ncomment\n*/\nvar s = `line1\nline2\nline3`\n\nfunc f() {\n\tfmt.Println(`a\nb`, s) /* x\n\ty */\n}\n"
-	for _, s := range []struct{ n, s string }{{"synthetic/clash", clash}, {"synthetic/dot", dot}, {"synthetic/clash-with-blank", clashBlank}, {"synthetic/raw-strings", raw}} {
+	// two packages of one name whose paths are a directory and a sub-directory of it; one of the
+	// references is added after decoration, so the restorer has to add the import and rename
+	parentChild := "package p\n\nimport (\n\t\"a/x/chi\"\n\t\"fmt\"\n)\n\nfunc f() {\n\tchi.A()\n\tfmt.Println()\n\tc16AddedChi()\n}\n"
+	for _, s := range []struct{ n, s string }{{"synthetic/clash", clash}, {"synthetic/dot", dot}, {"synthetic/clash-with-blank", clashBlank}, {"synthetic/clash-parent-child", parentChild}, {"synthetic/raw-strings", raw}} {
 		ref := &c16Ref{name: s.n, src: []byte(s.s)}
 		b, _ := rtParsePrint(ref.src)
 		ref.plain = string(b)
@@ -462,6 +468,9 @@ func runC16(c *fw.Ctx) {
 		c.Case(id, func() {
 			outs := map[string]int{}
 			n := c.Pick(8, 20)
+			if strings.HasPrefix(ref.name, "synthetic/") {
+				n = c.Pick(48, 120) // map-order dependent renames show in roughly one run out of eight
+			}
 			for k := 0; k < n; k++ {
 				out, _, err := c16Imports(ref.src, goast.WithResolver(guessMap), guessMap)
 				if err != nil {
